@@ -26,10 +26,9 @@ PROPS = {
              "§6 C02", 0.5),
     "C03": P("proof", "make_refines_apply: for every board with Shape (consistent derived state, rights and en-passant mark backed "
              "by the squares — established by the validation gate), one king per colour, and every well-formed semilegal move that "
-             "does not capture a king, the raw position after make_move_unchecked equals Spec.apply field by field (squares, side, "
+             "does not capture a king (proved for every position from the validation gate: make_refines_apply_valid, no_king_capture), the raw position after make_move_unchecked equals Spec.apply field by field (squares, side, "
              "rights, en-passant mark, both counters); counters_no_wrap; validate_one_king",
-             ["the hypothesis 'the move does not capture a king' is explicit; its derivation from 'valid position + semilegal move' "
-              "(attack-table argument) is not yet a theorem"],
+             [],
              "Lean 4 refinement theorem per move kind (cells via Tab.ext, rights via the touched-home-square characterisation of "
              "update_castling, clocks, en-passant mark)", "§6 C03"),
     "C04": P("proof", "unmake_make: for every board whose derived state is consistent and every move satisfying the per-kind "
